@@ -560,7 +560,12 @@ fn eachn(f: SigNode, mut args: Vec<Value>, env: &mut Uiua) -> UiuaResult {
     }
     let outputs = f.sig.outputs();
     let is_empty = args.iter().any(|v| v.shape.elements() == 0);
-    let elem_count = args.iter().map(|v| v.shape.elements()).max().unwrap() + is_empty as usize;
+    // An empty argument has no elements to call the function with
+    let elem_count = if is_empty {
+        0
+    } else {
+        args.iter().map(|v| v.shape.elements()).max().unwrap()
+    };
     let mut new_values = multi_output(outputs, Vec::with_capacity(elem_count));
     let new_shape = args
         .iter()
